@@ -85,6 +85,7 @@ static PyObject *op1(PyObject *self, PyObject *args) {
     CPyTagged a = CPyTagged_FromObject(ao);
     if (!strcmp(op, "neg")) res = tagged_out(CPyTagged_Negate(a));
     else if (!strcmp(op, "inv")) res = tagged_out(CPyTagged_Invert(a));
+    else if (!strcmp(op, "bitlen")) res = tagged_out(CPyTagged_BitLength(a));
     else if (!strcmp(op, "tag")) { CPyTagged_INCREF(a); res = tagged_out(a); }
     else if (!strcmp(op, "tofloat")) res = dbl_out(CPyFloat_FromTagged(a));
     else PyErr_SetString(PyExc_KeyError, op);
@@ -223,6 +224,7 @@ def gen_module() -> tuple[str, dict[str, dict[str, Any]]]:
                   ("i32", "i64"), ("i16", "i64"), ("u8", "i64"), ("u8", "i16"), ("i16", "i32")]:
         add(f"cx_{S_}_{T}", [S_], T, f"{T}(a)", kind="cross", S=S_, T=T)
     add("cv_int_bool", ["bool"], "int", "int(a)", kind="frombool", T="int")
+    add("bl_int", ["int"], "int", "a.bit_length()", kind="bitlen")
     # power
     add("p_int", ["int", "int"], "object", "a ** b", kind="pow")
     add("l_pow2_int", ["int"], "int", "a ** 2", kind="powlit", k=2)
@@ -540,6 +542,7 @@ def raw_stage(ctx: vlib.Ctx, model: Model, raw: Any, rng: vlib.Rng) -> None:
     for a in vals1:
         case(f"t neg {zt(a)}", raw.op1("neg", a), f"CPyTagged_Negate({a})")
         case(f"t inv {zt(a)}", raw.op1("inv", a), f"CPyTagged_Invert({a})")
+        case(f"t bitlen {zt(a)}", raw.op1("bitlen", a), f"CPyTagged_BitLength({a})")
         case(f"t tag {zt(a)}", raw.op1("tag", a), f"CPyTagged_FromObject({a})")
         for t, o in (("i64", "co64"), ("i32", "co32"), ("i16", "co16"), ("u8", "co8")):
             case(f"co {t} {zt(a)}", raw.op1(o, a), f"CPyLong_As{t}({a})")
@@ -838,6 +841,8 @@ def make_cases0(ctx: vlib.Ctx, fn: dict[str, dict[str, Any]], rng: vlib.Rng) -> 
             if f.get("side") == "l" and f["op"] == "shl":
                 vs = [v for v in vs if v <= MAX_SHIFT]
             cases[name] = [[v] for v in vs]
+        elif k == "bitlen":
+            cases[name] = [[v] for v in B] + [[rand_int(rng)] for _ in range(nfw)] + [[2 ** 4000 + 1], [-(2 ** 4000)]]
         elif k == "conv":
             cases[name] = [[v] for v in B] + [[rand_int(rng)] for _ in range(nfw)]
         elif k in ("back", "argconv"):
@@ -912,6 +917,8 @@ def model_line(f: dict[str, Any], a: list[Any]) -> str | None:
         return f"f {T} {op} {x} {y}"
     if k == "litcmp" and T == "int":
         return f"cl {op} {z[0]} {zt(f['k'])}"
+    if k == "bitlen":
+        return f"t bitlen {z[0]}"
     if k == "conv":
         return f"c {T} {z[0]}"
     if k == "back":
